@@ -1007,6 +1007,7 @@ def stepSimple (s : St) (op : Op) : Option (St × String) :=
   | .masgK j i =>
     match aget s.K j, aget s.K i with
     | some old, some _ =>
+      if j = i then ok s "self" else
       let s := match old with | some cid => disconnectCell s cid | none => s
       match aget s.K i with
       | some p' => ok { s with K := aset (aset s.K i none) j p' } "ok"
